@@ -75,6 +75,11 @@ class IRProp(Prop):
                 dist["impl_errors"][r["error"]] = dist["impl_errors"].get(r["error"], 0) + 1
             if not r["line"]:
                 dist["no_model_line"] += 1
+                if r["error"] is None:
+                    # apply() returned, yet a registered patch never passed through insert(): the model replays the work list through
+                    # insert(), so whatever path the bytes took instead is outside it
+                    dis.append({"seed": sd, "mods": repr(case.mods), "model_only": ["every patch of a finished rewrite passes through _modify.insert()"],
+                                "implementation_only": ["apply() returned without handing a registered patch to insert()"]})
                 continue
             model = got[k]
             k += 1
